@@ -183,6 +183,35 @@ def cosim_one(args):
         chans = [conn.channel(rpc_timeout=3) for _ in range(sc['nchan'])]
         results = {}
 
+        if sc['event'] == 'own-error-then-conn-close':
+            # channel 1 already carries an error of its own - a returned message nobody has raised yet, or the broker closed
+            # it earlier with 404 - when the broker closes the connection with a code: operations on every channel, this one
+            # included, now raise AMQPConnectionError carrying that code
+            ch = chans[0]
+            if sc['own'] == 'return':
+                broker.send_content(ch.channel_id, spec.Basic.Return(reply_code=312, reply_text='NO_ROUTE', exchange='x', routing_key='y'),
+                                    None, b'r' * sc.get('return_size', 0), reply=False)
+            else:
+                broker.close_channel(ch.channel_id, 404, 'TEXT-404')
+            ctx.quiesce()
+            broker.close_connection(sc['code'], 'TEXT-%d' % sc['code'])
+            for _ in range(5000):                 # until the reader has handled the Connection.Close (state read, nothing polled)
+                if conn.is_closed:
+                    break
+                amqpstorm.channel.time.sleep(0.001)
+            for i, c in enumerate(chans):
+                for attempt in range(2):
+                    try:
+                        c.queue.declare('probe%d' % i)
+                        results[(i, attempt)] = ('done', 1)
+                    except amqpstorm.AMQPConnectionError as why:
+                        results[(i, attempt)] = ('connection-error', why.error_code, str(why), 0)
+                    except amqpstorm.AMQPError as why:
+                        results[(i, attempt)] = (type(why).__name__, getattr(why, 'error_code', None), str(why)[:60], 0)
+            out['results'] = {('%d/%d' % k): v for k, v in results.items()}
+            out['closed_flags'] = [c.is_closed for c in chans] + [conn.is_closed]
+            return
+
         if sc['event'] == 'confirm-return':
             # one confirming channel, two publishers: A's mandatory message is returned as unroutable (Return, then the Ack
             # that completes the confirm), B publishes routable messages.  The returned-message error belongs to A, once.
@@ -302,6 +331,12 @@ def cosim_one(args):
     out['thread_excs'] = [(t.name, repr(t.exc)) for t in ctx.sched.threads if t.exc is not None]
     res = out.get('results', {})
     ev, code = sc['event'], sc['code']
+    if ev == 'own-error-then-conn-close' and res:
+        for k, r in sorted(res.items()):
+            if not (r[0] == 'connection-error' and r[1] == code):
+                out['problems'].append(('conn-close-masked-by-channels-own-error', int(k.split('/')[0]), r[:3]))
+                break
+        return out
     if ev == 'confirm-return' and res:
         a, b, parked = res.get(0), res.get(1), res.get(2, ('parked', 0))[1]
         if a is None or b is None:
@@ -364,6 +399,11 @@ def check(rep):
                       'code': rng.choice([404, 403, 406]) if ev == 'chan-close' else rng.choice([320, 541, 504]),
                       'delay': rng.choice([0.0, 0.005, 0.01, 0.02, 0.05]), 'consumer': rng.random() < 0.4,
                       'getter': ev == 'return' and rng.random() < 0.6, 'return_size': rng.choice([0, 0, 7, 300, 9000])}, rng.randrange(1 << 30)))
+    # Connection.Close arriving on a connection one of whose channels already holds an error of its own
+    for _ in range(30 if not thorough else 500):
+        jobs.append(({'nchan': rng.randint(1, 3), 'ops': 0, 'event': 'own-error-then-conn-close', 'own': rng.choice(['return', 'chan-close']),
+                      'code': rng.choice([320, 541, 504]), 'delay': 0.0, 'consumer': False, 'getter': False,
+                      'return_size': rng.choice([0, 7, 300])}, rng.randrange(1 << 30)))
     # a returned mandatory message on a confirming channel with a second publisher
     for _ in range(60 if not thorough else 1000):
         jobs.append(({'nchan': 1, 'ops': rng.randint(1, 4), 'event': 'confirm-return', 'code': 312,
